@@ -1,0 +1,21 @@
+//go:build verif
+
+package proxy
+
+import "github.com/datastax/go-cassandra-native-protocol/primitive"
+
+// VerifConsistencies builds values for Config.UnsupportedWriteConsistencies, whose element
+// type is unexported, so that a check can configure the override without going through
+// Run (which fixes timers and the reconnect policy). Only built with -tags verif.
+func VerifConsistencies(levels ...primitive.ConsistencyLevel) []clWrapper {
+	out := make([]clWrapper, 0, len(levels))
+	for _, l := range levels {
+		out = append(out, clWrapper{l})
+	}
+	return out
+}
+
+// VerifConsistency builds a value for Config.UnsupportedWriteConsistencyOverride.
+func VerifConsistency(level primitive.ConsistencyLevel) clWrapper {
+	return clWrapper{level}
+}
